@@ -595,6 +595,10 @@ class MessageManager(interfaces.TokenInterface, interfaces.MessageManager):
             assert any(
                 remote == message.remote for (remote, _) in self._active_exchanges
             )
+            # Whoever hands the message in needs to learn now that it can not
+            # be sent, not when the backlog is worked off and nobody listens
+            # any more
+            message.encode()
             self.log.debug("Message to %s put into backlog", message.remote)
             self._backlogs[message.remote].append((message, messageerror_monitor))
         else:
